@@ -99,6 +99,23 @@ struct Context {
     mode: ContextMode,
 }
 
+// everything a source can change while it is being built; restored if the build fails
+struct BuildMark {
+    input_len: usize,
+    nested_len: usize,
+    ctx: Context,
+    fs_len: usize,
+    cs_len: usize,
+    di_len: usize,
+    heap_len: usize,
+    ds_len: usize,
+    rs_len: usize,
+    ls_len: usize,
+    ss_len: usize,
+    log_len: usize,
+    const_undo_len: usize,
+}
+
 #[derive(Debug, Clone, Default, PartialEq)]
 pub struct Frame {
     fn_addr: usize,
@@ -155,6 +172,8 @@ pub struct State {
     stdout: Option<String>,
     last_error: Option<ErrorContext>,
     last_token: Option<Xsubstr>,
+    // constants overwritten by the source being built: (dictionary index, previous value)
+    const_undo: Vec<(usize, Cell)>,
     pub(crate) about_to_stop: bool,
     pub(crate) bitstr_mod: BitstrState,
     // d2 canvas
@@ -350,17 +369,72 @@ impl State {
 
     fn build_from_file(&mut self, path: Xstr, mode: ContextMode) -> Xresult {
         let s = crate::file::fs_overlay::read_source_file(&path)?;
+        let mark = self.build_mark();
         self.context_open(mode)?;
         self.intern_source(s.into(), Some(path))?;
-        self.build0()?;
+        if let Err(e) = self.build0() {
+            self.build_unwind(mark);
+            return Err(e);
+        }
+        self.const_undo.truncate(mark.const_undo_len);
         self.context_close()
     }
 
     fn build_from_source(&mut self, s: Xstr, mode: ContextMode) -> Xresult {
+        let mark = self.build_mark();
         self.context_open(mode)?;
         self.intern_source(s, None)?;
-        self.build0()?;
+        if let Err(e) = self.build0() {
+            self.build_unwind(mark);
+            return Err(e);
+        }
+        self.const_undo.truncate(mark.const_undo_len);
         self.context_close()
+    }
+
+    fn build_mark(&self) -> BuildMark {
+        BuildMark {
+            input_len: self.input.len(),
+            nested_len: self.nested.len(),
+            ctx: self.ctx.clone(),
+            fs_len: self.flow_stack.len(),
+            cs_len: self.code.len(),
+            di_len: self.dict.len(),
+            heap_len: self.heap.len(),
+            ds_len: self.data_stack.len(),
+            rs_len: self.return_stack.len(),
+            ls_len: self.loops.len(),
+            ss_len: self.special.len(),
+            log_len: self.reverse_log.as_ref().map(|l| l.len()).unwrap_or(0),
+            const_undo_len: self.const_undo.len(),
+        }
+    }
+
+    // A source that failed to build is forgotten: its unread text, open contexts and control
+    // structures, half-compiled code, definitions and meta-evaluation leftovers are dropped,
+    // so later sources behave as if it had never been submitted.
+    fn build_unwind(&mut self, m: BuildMark) {
+        self.input.truncate(m.input_len);
+        self.nested.truncate(m.nested_len);
+        self.ctx = m.ctx;
+        self.flow_stack.truncate(m.fs_len);
+        self.code.truncate(m.cs_len);
+        self.debug_map.truncate(m.cs_len);
+        while self.const_undo.len() > m.const_undo_len {
+            let (idx, val) = self.const_undo.pop().unwrap();
+            if let Some(DictEntry { entry: Entry::Constant(c), .. }) = self.dict.get_mut(idx) {
+                *c = val;
+            }
+        }
+        self.dict.truncate(m.di_len);
+        self.heap.truncate(m.heap_len);
+        self.data_stack.truncate(m.ds_len);
+        self.return_stack.truncate(m.rs_len);
+        self.loops.truncate(m.ls_len);
+        self.special.truncate(m.ss_len);
+        if let Some(log) = self.reverse_log.as_mut() {
+            log.truncate(m.log_len);
+        }
     }
 
     pub fn eval_file(&mut self, path: Xstr) -> Xresult {
@@ -2193,7 +2267,10 @@ fn core_word_const(xs: &mut State) -> Xresult {
         let name = Xstr::from(name.as_str());
         if let Some(pos) = xs.dict_pos(name.as_str()) {
             match &mut xs.dict[pos].entry {
-                Entry::Constant(old) => *old = val,
+                Entry::Constant(old) => {
+                    let prev = std::mem::replace(old, val);
+                    xs.const_undo.push((pos, prev));
+                }
                 _ => return Err(Xerr::const_context())
             }
         } else {
